@@ -45,22 +45,41 @@ def records_for(inst, kernels, seed=0):
     # contents) is inspected first; nothing it computed may leak into the judged mask
     for shp in {(w, h), (1, h * w), (h * w, 1)} - {(h, w)}:
         decoy = aa.Mask2D(mask=m.reshape(shp).copy(), pixel_scales=(sy, sx))
-        decoy.derive_indexes.edge_slim, decoy.derive_indexes.border_slim, decoy.derive_indexes.native_for_slim
-        decoy.derive_mask.edge, decoy.derive_mask.border
+        try:  # the decoy is not judged (its own shape is judged as another instance); it must only not disturb the judged mask
+            decoy.derive_indexes.edge_slim, decoy.derive_indexes.border_slim, decoy.derive_indexes.native_for_slim
+            decoy.derive_mask.edge, decoy.derive_mask.border
+        except Exception:  # noqa: BLE001
+            pass
     di, dm, dg = mask.derive_indexes, mask.derive_mask, mask.derive_grid
     lin = lambda mk: [int(x) for x in np.flatnonzero(~np.asarray(mk, dtype=bool).ravel())]
     recs = []
+    raised = []
+
+    def view(name, fn):
+        # an exception of the code under test inside the property's domain is a verdict (rejection), not a machinery failure
+        try:
+            return fn()
+        except Exception as e:  # noqa: BLE001
+            raised.append(f"{name}:{type(e).__name__}")
+            return []
+
     rec = {"p": "C10", "api": "sets", "h": h, "w": w, "u": u,
-           "edge_slim": np.asarray(di.edge_slim).astype(int).tolist(),
-           "edge_native": np.asarray(di.edge_native).astype(int).reshape(-1, 2).tolist(),
-           "edge_mask": lin(dm.edge),
-           "edge_grid": _cells_of_grid(dg.edge, h, w, sy, sx, oy, ox),
-           "border_slim": np.asarray(di.border_slim).astype(int).tolist(),
-           "border_native": np.asarray(di.border_native).astype(int).reshape(-1, 2).tolist(),
-           "border_mask": lin(dm.border),
-           "border_grid": _cells_of_grid(dg.border, h, w, sy, sx, oy, ox)}
+           "edge_slim": view("edge_slim", lambda: np.asarray(di.edge_slim).astype(int).tolist()),
+           "edge_native": view("edge_native", lambda: np.asarray(di.edge_native).astype(int).reshape(-1, 2).tolist()),
+           "edge_mask": view("edge_mask", lambda: lin(dm.edge)),
+           "edge_grid": view("edge_grid", lambda: _cells_of_grid(dg.edge, h, w, sy, sx, oy, ox)),
+           "border_slim": view("border_slim", lambda: np.asarray(di.border_slim).astype(int).tolist()),
+           "border_native": view("border_native", lambda: np.asarray(di.border_native).astype(int).reshape(-1, 2).tolist()),
+           "border_mask": view("border_mask", lambda: lin(dm.border)),
+           "border_grid": view("border_grid", lambda: _cells_of_grid(dg.border, h, w, sy, sx, oy, ox))}
+    rec["raised"] = raised
     recs.append(rec)
-    recs.append({"p": "C10", "api": "edge_buffed", "h": h, "w": w, "u": u, "out": lin(dm.edge_buffed)})
+    eb_raised = []
+    try:
+        eb = lin(dm.edge_buffed)
+    except Exception as e:  # noqa: BLE001
+        eb, eb_raised = [], [f"edge_buffed:{type(e).__name__}"]
+    recs.append({"p": "C10", "api": "edge_buffed", "h": h, "w": w, "u": u, "out": eb, "raised": eb_raised})
     # growth beyond the listed property: Mask2D.from_pixel_coordinates (buffer / invert) is the Buffed set of Masks.tla
     coords = [[int(k) // w, int(k) % w] for k in u]
     for b_, inv_ in ((0, False), (1, False), (2, True)):
